@@ -331,6 +331,12 @@ def run(repo: Repo, chk: Check) -> None:
                what=f'get_big_map_value for {label}: queried on-chain ids {queried}, result {outs}; '
                     + (f'the entries of on-chain big_map {src} must be visible through it' if src is not None else 'nothing may be read from the chain'))
 
+    # ---- memory across calls (shared rule, sa/statelint.py) ----------------------------------------------------------------------------------
+    chk.set_clause('C15.M')
+    from ..statelint import check_memory
+    check_memory(repo, chk, ['pytezos.michelson.types.big_map.', 'pytezos.context.impl.'],
+                 'a lookup in one big_map is answered with what another big_map (or an earlier state) held')
+
 
 class _GKH(BMHooks):
     def call(self, it, callee, args, kwargs, node):
